@@ -337,6 +337,70 @@ def run(tier: str, seed: int) -> int:
                     rep.distinct.add(("skip", skip, ro, op))
         rep.sections["skip_cells"] = c2
 
+        # ---------------- one call addressing several objects, each with its own policy and presence -------------
+        c3 = 0
+        layout = layouts["net/2vms/2images"]
+        objs = [o for o in layout.objects() if o[3] in ("vms", "images")]
+        all_keys = [k for _, _, _, _, k in layout.objects()]
+        groups = list(itertools.combinations(range(len(objs)), 2))
+        if not q:
+            groups += list(itertools.combinations(range(len(objs)), 3))
+        letters3 = "arif" if q else LETTERS
+        for grp in groups:
+            per_obj = [(pres, let) for pres in (True, False) for let in letters3]
+            if len(grp) == 3:
+                per_obj = [(pres, let) for pres in (True, False) for let in "arf"]
+            for op in ("get", "set", "unset"):
+                for combo in itertools.product(per_obj, repeat=len(grp)):
+                    c3 += 1
+                    init = Store({k: {"keep"} for k in all_keys}, all_keys)
+                    addressed, singles = [], []
+                    for gi, (pres, let) in zip(grp, combo):
+                        _, oname, sfx, _, key = objs[gi]
+                        if pres:
+                            init.states[key].add("s1")
+                        addressed.append((sfx, "s1", let * 2))
+                    for gi, (pres, let) in zip(grp, combo):
+                        key = objs[gi][4]
+                        scratch = init.copy()
+                        singles.append((key, model_op(scratch, op, key, "s1", let * 2, "rr"), scratch))
+                    real = init.copy()
+                    got, calls = run_real(ss, Mem, env, layout, real, op, addressed, {"check_mode": "rr"})
+                    rep.transitions += 1
+                    bad = [o for _, o, _ in singles if o in ("abort", "invalid")]
+                    inp = {"layout": "net/2vms/2images", "op": op, "objects": [[objs[gi][1], pres, let * 2] for gi, (pres, let) in zip(grp, combo)]}
+                    sig = {"part": "multi-object", "op": op, "n": len(grp)}
+                    if bad:
+                        if got not in bad:
+                            rep.violation(f"{op} on {inp['objects']} (object, state present, mode): outcome {got}, the rows of the policy table give {bad}", inp,
+                                          dict(sig, kind="outcome", expected=bad[0]))
+                        else:
+                            # objects whose row aborts must be unchanged; the others are either handled or not reached
+                            for key, o, scratch in singles:
+                                after = sorted(real.states.get(key, set()))
+                                allowed = [sorted(init.states.get(key, set()))] + ([sorted(scratch.states.get(key, set()))] if o == "ok" else [])
+                                if after not in allowed:
+                                    rep.violation(f"{op} on {inp['objects']}: aborted, but the states of {list(key)} are {after}, allowed {allowed}", inp,
+                                                  dict(sig, kind="abort-store"))
+                    else:
+                        model = init.copy()
+                        for key, o, scratch in singles:
+                            model.states[key] = set(scratch.states.get(key, set()))
+                        if got != "ok":
+                            rep.violation(f"{op} on {inp['objects']} (object, state present, mode): outcome {got}, every row of the policy table gives ok", inp,
+                                          dict(sig, kind="outcome", expected="ok"))
+                        elif real.key() != model.key():
+                            rep.violation(f"{op} on {inp['objects']} (object, state present, mode): store is {real.key()}, each object's own row gives {model.key()}",
+                                          inp, dict(sig, kind="store"))
+                    touched = {c[1] for c in calls}
+                    extra_touched = touched - {objs[gi][4] for gi in grp}
+                    if extra_touched:
+                        rep.violation(f"{op} addressed {inp['objects']} but the backend was called for {sorted(extra_touched)}", inp, dict(sig, kind="untouched"))
+                    rep.distinct.add(("multi", op, grp, combo))
+                    if c3 in (11, 900):
+                        rep.sample(dict(inp, got=str(got), store_after=real.key()))
+        rep.sections["multi_object_cells"] = c3
+
         # ---------------- sequences: BFS from every initial store ------------------------------
         depth = 2 if q else 3
         layout = layouts["vm/image"] if q else layouts["net/vm/image"]
